@@ -117,7 +117,17 @@ def mon (st : St) (op : List String) (outs : List (List String)) : St × List St
         -- first of the model's hand-out order
         (late.contains victim && (allocatePartial st.pop ((op.getD 1 "0").toInt?.getD 0 : Int) (parseInt (op.getD 2 "0"))).1.head?.map (·.1) != some victim))
       let pop' := (applyAllocs st.pop impl).map fun m => if m.id = victim ∧ fired then { m with disconnecting := true } else m
-      ({ st with pop := pop' }, if viol then [s!"PROP a task was handed to miner {victim} after it started disconnecting"] else [])
+      -- the whole-miner call reports as remainder exactly the request minus the rates it handed out — also when a miner of
+      -- its snapshot turned out to be gone
+      let remC : List String := if kind ≠ "fullx" then [] else
+        match implRem outs with
+        | some rem =>
+          let req : Rat := (parseInt (op.getD 1 "0") : Rat)
+          let given := sumR ((implIds outs).filterMap fun i => (findMiner st.pop i).map (·.hr))
+          if near rem (req - given) then [] else
+            [s!"PROP the whole-miner call reports a remainder of {showRat rem}; the request {showRat req} minus the rates it handed out ({showRat given}) is {showRat (req - given)}"]
+        | none => []
+      ({ st with pop := pop' }, (if viol then [s!"PROP a task was handed to miner {victim} after it started disconnecting"] else []) ++ remC)
     else (st, [])
   | _ => (st, [])
 
